@@ -216,7 +216,9 @@ Apply(c, st, last) ==
     [] c.step = "linear_optimization_step" -> SLmo(st, a, c.f)
     [] c.step = "epsilon_subgradient_step" -> SEpsSub(st, a, c.f, Gam(c))
 \* options outside the documented ones: the docstring of inexact_gradient_step promises ValueError
-Bogus(c) == c.opt = "bogus"
+\* undocumented option values (a fragment of a documented one included): the step must raise ValueError
+BogusOpts == {"bogus", "rel", "PD_gap"}
+Bogus(c) == c.opt \in BogusOpts
 \* --------------------------------------------------- the documented relations, declaratively (invariant)
 NewS(pre, post, f) == SubSeq(post.S[f], Len(pre.S[f]) + 1, Len(post.S[f]))
 NewC(pre, post, f) == SubSeq(post.C[f], Len(pre.C[f]) + 1, Len(post.C[f]))
@@ -345,7 +347,9 @@ Calls(ls) ==
   \cup {Call("linear_optimization_step", "-", f, 0, a, "-", <<>>, <<1, 1>>, <<0, 1>>) : f \in {4, 8}, a \in Others(ls)}
   \cup {Call("epsilon_subgradient_step", "-", f, 0, a, "-", <<>>, g, <<0, 1>>) : f \in Generic, a \in Starts(ls), g \in Gammas}
 BogusCalls == {Call("inexact_gradient_step", "bogus", 1, 0, "L1", "-", <<>>, <<1, 1>>, <<1, 2>>),
-               Call("inexact_proximal_step", "bogus", 3, 0, "L1", "-", <<>>, <<1, 1>>, <<0, 1>>)}
+               Call("inexact_gradient_step", "rel", 1, 0, "L1", "-", <<>>, <<1, 1>>, <<1, 2>>),
+               Call("inexact_proximal_step", "bogus", 3, 0, "L1", "-", <<>>, <<1, 1>>, <<0, 1>>),
+               Call("inexact_proximal_step", "PD_gap", 3, 0, "L1", "-", <<>>, <<1, 1>>, <<0, 1>>)}
 Init == /\ st = InitSt(DimP, DimE, 2, 0) /\ prev = InitSt(DimP, DimE, 2, 0) /\ last = <<>> /\ plast = <<>> /\ hist = <<>>
 Fire(step) ==
             /\ \E c \in (LET S == {x \in Calls(last) : x.step = step} IN IF Grid = 2 THEN {RandomElement(S)} ELSE S) :
